@@ -63,13 +63,20 @@ def _one(rec):
 
 def validate(prop=None, jobs=None):
     recs = load(prop)
-    res = {"mutants": 0, "caught": 0, "twins": 0, "twins_silent": 0, "not_applicable": 0, "missed": [], "false_alarms": [], "details": []}
+    res = {"mutants": 0, "caught": 0, "twins": 0, "twins_silent": 0, "refused_expected": 0, "refused": 0, "not_applicable": 0, "missed": [], "false_alarms": [], "details": []}
     if not recs:
         return res
     with ThreadPoolExecutor(jobs or min(16, os.cpu_count() or 4)) as ex:
         for rec, outcome, info in ex.map(_one, recs):
             if outcome == "not-applicable":
                 res["not_applicable"] += 1
+            elif rec["expect"] == "incomplete":
+                # a breaking change written in an idiom the rule cannot read: the check must refuse to pass (exit 2), never pass silently
+                res["refused_expected"] += 1
+                if outcome in ("incomplete", "caught"):
+                    res["refused"] += 1
+                else:
+                    res["missed"].append({"id": rec["id"], "outcome": outcome, "info": info})
             elif rec["expect"] == "caught":
                 res["mutants"] += 1
                 if outcome in ("caught",):
@@ -90,7 +97,7 @@ def main(argv):
     prop = argv[0] if argv else None
     r = validate(prop)
     for d in r["details"]:
-        flag = "ok " if (d["expect"] == "caught" and d["outcome"] == "caught") or (d["expect"] == "silent" and d["outcome"] == "silent") else ("n/a" if d["outcome"] == "not-applicable" else "BAD")
+        flag = "ok " if (d["expect"] == "caught" and d["outcome"] == "caught") or (d["expect"] == "silent" and d["outcome"] == "silent") or (d["expect"] == "incomplete" and d["outcome"] in ("incomplete", "caught")) else ("n/a" if d["outcome"] == "not-applicable" else "BAD")
         print(f"{flag} {d['id']:<40} expect={d['expect']:<7} outcome={d['outcome']:<11} {d['rule'][:120]}")
-    print(f"mutants caught {r['caught']}/{r['mutants']}; twins silent {r['twins_silent']}/{r['twins']}; not applicable {r['not_applicable']}")
+    print(f"mutants caught {r['caught']}/{r['mutants']}; refused as not understood {r['refused']}/{r['refused_expected']}; twins silent {r['twins_silent']}/{r['twins']}; not applicable {r['not_applicable']}")
     return 0 if not r["missed"] and not r["false_alarms"] else 1
